@@ -1,13 +1,4 @@
 #!/bin/sh
-# tools/seedregress.sh : apply every seeded/<id>/patch.diff to a scratch worktree and run the quick
-# check of its property (or the check named in meta.json "caught_by"); one line per seed.
+# tools/seedregress.sh [jobs] : every kept seed against the current checks (tools/seedone.sh), `jobs` at a time
 cd "$(dirname "$0")/.."
-for d in seeded/*/; do
-  id=$(basename $d); prop=${id%%-*}
-  by=$(python3 -c "import json;print(json.load(open('$d/meta.json')).get('caught_by','$prop'))")
-  obs=$(python3 -c "import json;print(json.load(open('$d/meta.json')).get('obsolete_as_property_violation_since',''))")
-  if [ -n "$obs" ]; then echo "$id: obsolete since fix $obs (no longer violates the property)"; continue; fi
-  out=$(tools/trymut.sh $(pwd)/$d/patch.diff $by 2>&1)
-  if echo "$out" | grep -q "PATCH DOES NOT APPLY"; then echo "$id: PATCH DOES NOT APPLY"; continue; fi
-  if echo "$out" | grep -q "^VIOLATION"; then echo "$id: caught by $by $(echo "$out" | grep -c no-failing-input-found | sed 's/^0$//;s/^1$/(no-failing-input-found)/')"; else echo "$id: MISSED by $by"; fi
-done
+ls seeded | xargs -P "${1:-4}" -n1 tools/seedone.sh | sort
